@@ -613,7 +613,22 @@ func genLocalUnit(t *rapid.T, lc *lctx, tiny bool) (jgen.File, jgen.UnitTruth) {
 			nOther = min(nOther, 1)
 		}
 		for k := 0; k < nOther; k++ {
-			switch rapid.IntRange(0, 7).Draw(t, "lOtherKind") {
+			switch rapid.IntRange(0, 9).Draw(t, "lOtherKind") {
+			case 8, 9:
+				// seventh seed batch: a statically imported field (or a class whose name starts in lower case) that
+				// is used as a receiver only: `import static java.lang.System.out;` ... `out.println(1);`
+				if u.kind == "annotation" {
+					continue
+				}
+				name := []string{"out", "err", "log", "logger", "instance", "mapper", "json", "σ"}[rapid.IntRange(0, 7).Draw(t, "lLowerReceiver")] + fmt.Sprint(u.fresh())
+				u.taken[name] = true
+				why := u.place(name, "lower-case-receiver:", []lform{{"call", "stmt", "%N.println(1);"}, {"chain", "stmt", "%N.a().b();"}, {"call-as-argument", "stmt", "use(%N.size());"},
+					{"field-access", "stmt", "Object v# = %N.length;"}, {"call-in-condition", "stmt", "if (%N.isReady()) { go(); }"}, {"call-in-lambda", "stmt", "Runnable v# = () -> %N.flush();"}})
+				if rapid.Bool().Draw(t, "lLowerReceiverStatic") {
+					u.imps = append(u.imps, limp{text: "org.stat.Streams" + fmt.Sprint(u.fresh()) + "." + name, static: true, verdict: "keep", why: why})
+				} else {
+					u.imps = append(u.imps, limp{text: "org.lib.lower." + name, verdict: "keep", why: why})
+				}
 			case 0:
 				u.imps = append(u.imps, limp{text: "org.wild.w" + fmt.Sprint(u.fresh()), wildcard: true, verdict: "keep", why: "wildcard"})
 			case 1: // all nested classes of a class
